@@ -446,6 +446,8 @@ def _find_time_like(coordmap, fix0):
                 return (in_ax, corr_out, name)
             # Name not in output, but is there another time-like name at this
             # output position?
+            if corr_out is None: # no corresponding output axis (e.g. zero TR)
+                return (in_ax, None, name)
             matching = non_space_onames[corr_out - 3]
             if matching is None:
                 return (in_ax, corr_out, name)
